@@ -1538,11 +1538,15 @@ impl Scenario for C11 {
                 return out;
             }
             if n_threads <= 1 {
-                // a sequential-semantics difference is not a C11 violation
-                out.harness_error = Some(format!(
-                    "single-thread run disagrees with C11's sequential model (model out of date, or the store is sequentially broken; not a C11 verdict): {} — {}",
-                    v.class, v.detail
-                ));
+                // One thread alone is the degenerate interleaving (the other threads have
+                // empty programs): "every read returns the value of the latest write in
+                // some single order" has exactly one order to choose from. The sequential
+                // model is validated by `nsim selftest C11` and by every single-thread run
+                // of every batch on the unchanged tree; far below capacity a `_cache:` key
+                // is a register too (STRICT mode).
+                let mut v = v;
+                v.class = format!("sequential:{}", v.class);
+                out.violation = Some(v);
                 return out;
             }
             out.violation = Some(v);
